@@ -382,6 +382,19 @@ impl Segment {
         }
     }
 
+    /// Closes the writers and waits until everything that has been handed to them is in the files. Unlike
+    /// `shutdown_writing` (which detaches this work) it is meant for the shutdown of the server: with the no-wait
+    /// confirmation the batches are written by a background task that must not be cut off by the end of the process.
+    pub async fn shutdown_writing_and_wait(&mut self) {
+        if let Some(log_writer) = self.log_writer.take() {
+            let _ = log_writer.fsync().await;
+            log_writer.shutdown_persister_task().await;
+        }
+        if let Some(index_writer) = self.index_writer.take() {
+            let _ = index_writer.fsync().await;
+        }
+    }
+
     pub async fn delete(&mut self) -> Result<(), IggyError> {
         let segment_size = self.size_bytes;
         let segment_count_of_messages = self.get_messages_count();
